@@ -135,6 +135,10 @@ func scenINV(s *sched.Sim, cfg Config, res *Result) {
 	}
 	w := gql.Generate(s.T, wf, maxSvc)
 	gc := drawGwConfig(s)
+	if s.T.Bool(1, 3) {
+		// small downstream batches: a level with several lookups at one service is sent as several calls
+		gc.MaxBatch = 1 + s.T.Choose(2)
+	}
 	if gc.Sanitize {
 		of.NodeRoot = false
 	}
@@ -188,15 +192,20 @@ func scenINV(s *sched.Sim, cfg Config, res *Result) {
 		partial bool
 		active  bool
 		sameMsg bool
+		// everyCall: from the ordinal-th call on, every call of the operation is answered with errors
+		// (several calls of one level fail, e.g. the chunks of a split batch)
+		everyCall bool
+		hit       int
 	}
 	env.net.FaultFor = func(m *simnet.Message) *simnet.Fault {
 		if !target.active || !strings.HasPrefix(m.Tag, target.prefix) {
 			return nil
 		}
 		target.count++
-		if target.count != target.ordinal {
+		if target.count != target.ordinal && !(target.everyCall && target.count > target.ordinal) {
 			return nil
 		}
+		target.hit++
 		return &simnet.Fault{Kind: "service-errors", Mutate: func(b []byte) []byte {
 			var arr []map[string]interface{}
 			if json.Unmarshal(b, &arr) != nil || len(arr) == 0 {
@@ -210,7 +219,7 @@ func scenINV(s *sched.Sim, cfg Config, res *Result) {
 			for _, idx := range idxs {
 				var es []interface{}
 				for e := 0; e < target.nErr; e++ {
-					msg := fmt.Sprintf("svc-error-%s-%d-%d-%d", target.prefix, target.ordinal, idx, e)
+					msg := fmt.Sprintf("svc-error-%s-%d-%d-%d", target.prefix, target.count, idx, e)
 					pth := []interface{}{"root", float64(idx), "leaf"}
 					if target.sameMsg {
 						// several errors that differ only in their extensions
@@ -293,6 +302,10 @@ func scenINV(s *sched.Sim, cfg Config, res *Result) {
 					inj = nil
 					target.prefix, target.ordinal, target.count, target.nErr, target.partial, target.active = tag+"#0", site, 0, ne, partial, true
 					target.sameMsg = ne > 1 && passCases%3 == 0
+					target.everyCall = !target.sameMsg && !partial && passCases%8 == 1
+					if target.everyCall {
+						res.Probe("inv.service-errors-in-every-call")
+					}
 					// one case in three: the operation is the first element of a batch, next to an
 					// operation whose services answer without errors. Each must get its own errors.
 					inBatch := passCases%3 == 1 && sibling != nil && sibling.Text != op.Text
@@ -313,6 +326,10 @@ func scenINV(s *sched.Sim, cfg Config, res *Result) {
 						cr = env.post(tag, []clientReq{{Query: op.Text, Variables: op.Vars, OperationName: op.OpName}}, false)
 					}
 					target.active = false
+					if target.hit > 1 {
+						res.Probe("inv.service-errors-in-several-calls-of-one-request")
+					}
+					target.hit = 0
 					if len(inj) == 0 {
 						continue
 					}
